@@ -3,6 +3,7 @@ import XalanModel.Containers.XMap
 import XalanModel.Containers.Deque
 import XalanModel.Containers.XList
 import XalanModel.Containers.DOMString
+import XalanModel.Containers.Bitmap
 import Driver.Util
 /-
 xm_c20: replays container operation logs on the Lean models.
@@ -27,6 +28,7 @@ structure St where
   lnext : Nat := 0
   slots : Array (Option Nat) := Array.replicate 4 none     -- saved list iterators (node ids)
   strs : Array DStr := Array.replicate 4 {}
+  bmps : Array Bitmap := Array.replicate 2 (Bitmap.new 0)
 
 def nats (l : List String) : Option (List Nat) := l.mapM String.toNat?
 
@@ -384,20 +386,52 @@ def strStep (s : St) : List String → St × String
     | _ => (s, "bad")
   | _ => (s, "bad")
 
+/-- number of element objects that must be alive: every constructed cell of every container -/
+def liveCells (s : St) : Nat :=
+  s.vecs.foldl (fun n v => n + v.items.length) 0 + s.maps.foldl (fun n m => n + m.entries.length) 0 +
+  s.deqs.foldl (fun n d => n + d.toList.length) 0 + s.lsts.foldl (fun n l => n + l.live.length) 0
+
+def withLive (r : St × String) : St × String :=
+  if r.2 = "mem" ∨ r.2 = "bad" then r else (r.1, r.2 ++ s!" L={liveCells r.1}")
+
+/- ---------------------------------------------------------------- bitmap -/
+
+def showBmp (b : Bitmap) : String :=
+  s!"{b.size} :" ++ String.join (b.bits.map fun x => match x with | some true => " 1" | some false => " 0" | none => " ?")
+
+def setB (s : St) (i : Nat) (r : Option Bitmap) : St × String :=
+  match r with
+  | some b => ({ s with bmps := s.bmps.setIfInBounds i b }, showBmp b)
+  | none => (s, "mem")
+
+def bmpStep (s : St) (op : String) (a : List Int) : St × String :=
+  let n (x : Int) : Nat := x.toNat
+  let g (i : Int) : Bitmap := s.bmps.getD (n i) (Bitmap.new 0)
+  match op, a with
+  | "new", [i, sz] => setB s (n i) (some (Bitmap.new (n sz)))
+  | "set", [i, b] => setB s (n i) ((g i).set (n b))
+  | "clear", [i, b] => setB s (n i) ((g i).clear (n b))
+  | "toggle", [i, b] => setB s (n i) ((g i).toggle (n b))
+  | "clearall", [i] => setB s (n i) (some (g i).clearAll)
+  | _, _ => (s, "bad")
+
 def step (s : St) : List String → St × String
   | ["reset"] => ({}, "ok")
-  | "vec" :: rest => vecStep s rest
+  | "bmp" :: op :: rest => match ints rest with
+    | some a => bmpStep s op a
+    | none => (s, "bad")
+  | "vec" :: rest => withLive (vecStep s rest)
   | "map" :: op :: rest => match ints rest with
-    | some a => mapStep s op a
+    | some a => withLive (mapStep s op a)
     | none => (s, "bad")
   | "set" :: op :: rest => match ints rest with
     | some a => setStep s op a
     | none => (s, "bad")
   | "deq" :: op :: rest => match ints rest with
-    | some a => deqStep s op a
+    | some a => withLive (deqStep s op a)
     | none => (s, "bad")
   | "lst" :: op :: rest => match ints rest with
-    | some a => lstStep s op a
+    | some a => withLive (lstStep s op a)
     | none => (s, "bad")
   | "str" :: rest => strStep s rest
   | _ => (s, "bad")
